@@ -123,6 +123,12 @@ def run_case(case):
             w2, rows2, _ = build()
             T = comp_classes[ti]
             e, comps = rows2[ei]
+            # every query once before the removal: a result remembered from before must not survive it
+            for T0 in comp_classes:
+                q(w2.get, T0)
+                for (e0, _c0) in rows2:
+                    q(w2.has_component, e0, T0)
+                    q(w2.get_component, e0, T0)
             matches = [c for c in comps if isinstance(c, T)]
             exact = [c for c in comps if type(c) is T]
             r = q(w2.remove_component, e, T)
@@ -165,6 +171,8 @@ def run_case(case):
     for ti in range(n):
         w2, _rows2, procs2 = build()
         T = proc_classes[ti]
+        for T0 in proc_classes:
+            q(w2.get_processor, T0)
         matches = [p for p in procs2 if isinstance(p, T)]
         exact = [p for p in procs2 if type(p) is T]
         r = q(w2.remove_processor, T)
@@ -186,6 +194,21 @@ def run_case(case):
             m2 = [p for p in left if isinstance(p, T2)]
             if (g is None) != (not m2) or (g is not None and not any(g is m for m in m2)):
                 viol('get_processor_after_remove_processor', type=T2.__name__, removed=repr(r), got=repr(g))
+        if r is not None:
+            # replacement through add_processor: the old instance of that exact type must not be found any more
+            fresh = type(r)()
+            try:
+                w2.add_processor(fresh)
+            except Exception as exc:
+                viol('add_processor_raised', exception=repr(exc))
+            now = left + [fresh]
+            for T2 in proc_classes:
+                g = q(w2.get_processor, T2)
+                m2 = [p for p in now if isinstance(p, T2)]
+                ex2 = [p for p in now if type(p) is T2]
+                ok = (g is ex2[0]) if ex2 else (any(g is m for m in m2) if m2 else g is None)
+                if not ok:
+                    viol('get_processor_after_replacement', type=T2.__name__, got=repr(g))
 
     multi_base = any(len([b for b in c.__bases__ if b is not RecBase]) >= 2 for c in comp_classes)
     classes = []
